@@ -564,14 +564,35 @@ def _parallel(prog, c, fn):
         try:
             ct = ast.parse(cut_txt, mode="eval").body
             own_counts = (f"{names[1]}.size", f"len({names[1]})", f"{names[1]}.shape[0]")
+
+            def counts_own(txt):
+                """the count is that of the log-probability array being cut, or of a re-ordering of it held in another local"""
+                if txt in own_counts:
+                    return True
+                for pt_ in ("_b.size", "len(_b)", "_b.shape[0]"):
+                    b_ = pmatch(ast.parse(txt, mode="eval").body, pt_)
+                    REORD = (f"{names[1]}[{names[1]}.argsort()]", f"{names[1]}[argsort({names[1]})]", f"sort({names[1]})", f"{names[1]}")
+                    if b_ is not None and b_["_b"].isidentifier():
+                        defs_ = [st_ for st_ in ast.walk(fn) if isinstance(st_, ast.Assign) and len(st_.targets) == 1 and U(st_.targets[0]) == b_["_b"]]
+                        if len(defs_) == 1:
+                            tt_ = rz.term(defs_[0].value, defs_[0], keep=names)
+                            if any(pmatch(tt_, q_) is not None for q_ in REORD):
+                                return True
+                    elif b_ is not None:
+                        try:
+                            if any(pmatch(ast.parse(b_["_b"], mode="eval").body, q_) is not None for q_ in REORD):
+                                return True
+                        except SyntaxError:
+                            pass
+                return False
             ab, seen = abstract(ct, [("_p.size", "N"), ("len(_p)", "N"), ("_p.shape[0]", "N")])
             ex = Expander(prog, c.module, c)
             cut = ex.eval(ab, {"N": R.sym("N"), "interval": R.sym("interval")})
             okc = cut.eq(anf.fn_("int", R.sym("N") * (R.const(1) - R.sym("interval")))) \
-                and all(str(t_) in own_counts for ts in seen.values() for t_ in ts)
+                and all(counts_own(str(t_)) for ts in seen.values() for t_ in ts)
             why = f"ascending argsort then cut at `{cut_txt[:120]}`" + (
-                "" if all(str(t_) in own_counts for ts in seen.values() for t_ in ts) else
-                f": the row count is taken from `{[str(t_) for ts in seen.values() for t_ in ts if str(t_) not in own_counts][0]}`, not from the array `{names[1]}` that is cut")
+                "" if all(counts_own(str(t_)) for ts in seen.values() for t_ in ts) else
+                f": the row count is taken from `{[str(t_) for ts in seen.values() for t_ in ts if not counts_own(str(t_))][0]}`, not from the array `{names[1]}` that is cut")
             # N is the number of rows being cut: where the cut index is held in a local, the log-probabilities are not shortened
             # (thinned, trimmed) between its computation and the cut - a re-ordering keeps the count
             if okc:
